@@ -214,3 +214,45 @@ func (t *ConvTable) For(tag string) *ConvClause {
 	t.mem[tag] = c
 	return c
 }
+
+// PathsFor lists the element paths of the visitor that are consistent with the tag name and on
+// which no embed extractor claimed the element.
+func (t *ConvTable) PathsFor(tag string) []core.DecisionPath {
+	var out []core.DecisionPath
+	for _, pa := range t.vm.paths {
+		if litOf(pa, `$1.Type == html.ElementNode`) == -1 || litOf(pa, `$1.Type == html.TextNode`) == 1 {
+			continue
+		}
+		consistent := true
+		for _, l := range pa.Lits {
+			if strings.HasPrefix(l.Atom, tagAtomPrefix) {
+				x := strings.TrimSuffix(strings.TrimPrefix(l.Atom, tagAtomPrefix), `"`)
+				if l.Val != (x == tag) {
+					consistent = false
+				}
+			}
+		}
+		embed := false
+		for _, ev := range builderCalls(pa) {
+			if strings.HasPrefix(ev, "AddEmbed(") {
+				embed = true
+			}
+		}
+		if consistent && !embed {
+			out = append(out, pa)
+		}
+	}
+	return out
+}
+
+// DebugConv prints the behaviour signature of the converter for a tag (developer tool).
+func DebugConv(p *core.Program, tag string) {
+	r := core.NewReport("dbg", "quick")
+	tbl := converterSwitch(p, r, "dbg")
+	if tbl == nil {
+		fmt.Println("no table")
+		return
+	}
+	cl := tbl.For(tag)
+	fmt.Println(cl.Sig)
+}
